@@ -339,6 +339,12 @@ def apply(net, E, tr):
         assert o.kind in ("distance", "s-distance")
         o.frm, o.to = o.to, o.frm
         E.swapped ^= {o.uid}
+    elif k == "mvd":                                # one distance written in another station's cluster (with its own from=), at position tr[4]
+        c = net.clusters[_find_cluster(net, tr[1])]
+        o = [x for x in c.obs if x.uid == (tr[1], tr[2])][0]
+        d = net.clusters[_find_cluster(net, tr[3])]
+        assert o.kind == "distance" and c.covm is None and d.covm is None and c is not d
+        c.obs.remove(o); d.obs.insert(tr[4], o)
     elif k == "id":                                 # rename all points
         m = idmap(tr[1], net.tmpl)
         cur = {p.id: m[_base_id(E, p.id)] for p in net.points}
@@ -550,6 +556,12 @@ def single_words(tmpl, groups=None):
                   for e in EPS0_OF.get(tmpl, [])]
     W["swf"] = [(("swf", c.uid, o.uid[1]),) for c in net.clusters if c.frm is not None and any(x.kind == "direction" for x in c.obs)
                 for o in c.obs if o.kind == "distance" and o.frm == c.frm]
+    # a distance of one station cluster moved into every other station cluster that has directions, at every position
+    # (in particular right after the direction to the same target): same survey, other grouping
+    W["mvd"] = [(("mvd", c.uid, o.uid[1], d.uid, pos),) for c in net.clusters if c.frm is not None and c.covm is None
+                for o in c.obs if o.kind == "distance" and o.frm == c.frm and len(c.obs) > 1
+                for d in net.clusters if d is not c and d.frm is not None and d.covm is None and any(x.kind == "direction" for x in d.obs)
+                for pos in range(len(d.obs) + 1)]
     W["pp"] = [(("pp", p),) for p in perms_of(len(net.points))]
     W["pc"] = [(("pc", p),) for p in perms_of(len(net.clusters))]
     W["po"] = [(("po", c.uid, p),) for c in net.clusters for p in perms_of(len(c.obs))]
@@ -569,7 +581,7 @@ def single_words(tmpl, groups=None):
     if tmpl == "netcy":                 # only there to expose the frame handling of x-y covariances
         W = {k: W[k] for k in ("tr", "ax")}
     if tmpl == "netw":                  # only there to cover the wrap-arounds of reading / orientation / bearing
-        W = {k: W[k] for k in ("tr", "turn", "turn0", "swf", "ax")}
+        W = {k: W[k] for k in ("tr", "turn", "turn0", "swf", "mvd", "ax")}
     W = {k: v for k, v in W.items() if v}
     if groups is not None:
         W = {k: v for k, v in W.items() if k in groups}
